@@ -96,6 +96,10 @@ def concretise(plan):
 def api_script(refs):
     """every reader API call of harness/replay_readers.c on every inode reference of the image"""
     ops = ["M 0 0 0 64", "M 0 0 8000 400", "M 1 0 0 64", "M 0 99999 0 8", "P f", "P d/g", "P d/sub/l", "P d/sub/zz/zz/zz"]
+    # seeks into the block that is already cached, beyond what it holds, with reads that run past the 8 KiB buffer
+    for tbl in (0, 1):
+        for off in (100, 1000, 2000, 4096, 8000, 8191):
+            ops += ["M %d 0 0 8" % tbl, "M %d 0 %d 8" % (tbl, off), "M %d 0 0 8" % tbl, "M %d 0 %d 9000" % (tbl, off)]
     for r in refs:
         ops += ["I %d" % r, "D %d" % r, "R %d 0 100000" % r, "R %d 4096 300" % r, "R %d 8200 5000" % r, "B %d 0" % r, "B %d 1" % r, "B %d 2" % r,
                 "B %d 99" % r, "F %d" % r, "S %d" % r]
@@ -122,7 +126,7 @@ def observe(tools, img, outdir):
         shutil.rmtree(outdir, ignore_errors=True)
         os.makedirs(outdir)
         try:
-            p = subprocess.run(cmd, stdout=subprocess.DEVNULL, stderr=subprocess.PIPE, timeout=10,
+            p = subprocess.run(cmd, stdout=(subprocess.PIPE if name == "api" else subprocess.DEVNULL), stderr=subprocess.PIPE, timeout=(30 if name == "api" else 10),
                                env=dict(os.environ, ASAN_OPTIONS="detect_leaks=0:abort_on_error=0:allocator_may_return_null=1:max_allocation_size_mb=4096"))
             rc, err = p.returncode, p.stderr.decode(errors="replace")
         except subprocess.TimeoutExpired:
@@ -140,6 +144,18 @@ def observe(tools, img, outdir):
             res[name] = "signal"
         else:
             res[name] = "ok" if rc == 0 else "error"
+            if name == "api":
+                # every call is made on readers with a history and on fresh ones: a different answer means a reader handed out
+                # bytes that are not (any more) valid contents of its buffer
+                for line in p.stdout.decode(errors="replace").split("\n"):
+                    if line.startswith('{"i"'):
+                        try:
+                            x = json.loads(line)
+                        except ValueError:
+                            continue
+                        if x["h"] != x["f"]:
+                            res[name] = "stale:%s h=%s f=%s" % (x["op"], x["h"][:3], x["f"][:3])
+                            break
     shutil.rmtree(outdir, ignore_errors=True)
     return res
 
